@@ -20,6 +20,7 @@ type genState struct {
 	budget  int64 // remaining virtual time (bounds the number of ticks per case)
 	ops     []string
 	dataMax int
+	cur     int64 // label of the policies in force
 }
 
 var plainDurs = []int64{0, 1, 2, tickNs - 1, tickNs, tickNs + 1, 2 * tickNs, ttlNs - tickNs - 1, ttlNs - tickNs, ttlNs - tickNs + 1,
@@ -59,14 +60,39 @@ func (g *genState) lookup(r *prng.R) {
 	g.ops = append(g.ops, fmt.Sprintf("lookup x=%d", x))
 }
 
+// nextLabel: mostly a label that differs from the current policies in ONE section only
+// (units global remedy, tens accounts, hundreds exporters, thousands diagnosis, ten-thousands endpoint),
+// sometimes the identical label (re-applying the same file), sometimes an older label (revert).
+func nextLabel(r *prng.R, cur int64, pool int) int64 {
+	pow := []int64{1, 10, 100, 1000, 10000}
+	set := func(l int64, sec int, v int64) int64 { return l - (l/pow[sec]%10)*pow[sec] + v*pow[sec] }
+	switch k := r.Intn(100); {
+	case k < 25:
+		return set(cur, 1, int64(r.Intn(pool))) // accounts only (or identical)
+	case k < 45:
+		return set(cur, 0, int64(r.Intn(pool)))
+	case k < 55:
+		return set(cur, 2, int64(r.Intn(pool)))
+	case k < 65:
+		return set(cur, 3, int64(r.Intn(pool)))
+	case k < 75:
+		return set(cur, 4, int64(r.Intn(pool)))
+	case k < 83:
+		return cur
+	default:
+		return int64(r.Intn(pool)) + 10*int64(r.Intn(2))
+	}
+}
+
 func (g *genState) update(r *prng.R) {
 	ok := 1
 	if r.Chance(12) {
 		ok = 0
 	}
-	// a small label pool: re-applying an older label is a "revert"
-	g.ops = append(g.ops, fmt.Sprintf("update d=%d ok=%d", r.Intn(g.dataMax), ok))
+	d := nextLabel(r, g.cur, g.dataMax)
+	g.ops = append(g.ops, fmt.Sprintf("update d=%d ok=%d", d, ok))
 	if ok == 1 {
+		g.cur = d
 		g.marks = append(g.marks, g.now)
 	}
 }
@@ -80,7 +106,8 @@ func randomCase(r *prng.R, id string) proto.Case {
 	if malformed && r.Chance(30) {
 		g.ops = append(g.ops, "lookup x=1", "stat") // ops before cfg
 	}
-	g.ops = append(g.ops, cfgLine(r.Intn(g.dataMax)))
+	g.cur = int64(r.Intn(g.dataMax))
+	g.ops = append(g.ops, cfgLine(int(g.cur)))
 	n := r.Range(4, 30)
 	for len(g.ops) < n {
 		switch k := r.Intn(100); {
@@ -113,7 +140,7 @@ func directedCase(r *prng.R, id string) proto.Case {
 	}
 	g.ops = append(g.ops, "lookup x=0")
 	gap := prng.Pick(r, []int64{0, 1, tickNs, 12_000_000_000})
-	g.ops = append(g.ops, fmt.Sprintf("advance d=%d", gap), fmt.Sprintf("update d=%d ok=1", r.Range(1, 3)))
+	g.ops = append(g.ops, fmt.Sprintf("advance d=%d", gap), fmt.Sprintf("update d=%d ok=1", r.Range(1, 3)*prng.Pick(r, []int{1, 1, 10, 100})))
 	if r.Bool() {
 		g.ops = append(g.ops, "lookup x=1", fmt.Sprintf("update d=%d ok=1", r.Range(0, 3)))
 	}
@@ -146,8 +173,8 @@ func gen(r *prng.R, f proto.Flags, emit func(proto.Case)) {
 		}
 	}
 	if f.Tier == "thorough" {
-		// every op sequence of length 1..5 over a 7-letter alphabet, then observe both transactions
-		alpha := []string{"lookup x=0", "lookup x=1", "update d=1 ok=1", "advance d=1",
+		// every op sequence of length 1..5 over an 8-letter alphabet (update d=10 changes the accounts section only), then observe both transactions
+		alpha := []string{"lookup x=0", "lookup x=1", "update d=1 ok=1", "update d=10 ok=1", "advance d=1",
 			fmt.Sprintf("advance d=%d", tickNs), fmt.Sprintf("advance d=%d", ttlNs), fmt.Sprintf("advance d=%d", ttlNs+1)}
 		id := 0
 		var rec func(prefix []string, depth int)
